@@ -459,7 +459,7 @@ func c05Template(rl corev1.ResourceList) *corev1.PodTemplateSpec {
 // (a) owners
 
 func TestVerifC05Owners(t *testing.T) {
-	kit.Run(t, kit.Config{Property: "C05", Unit: "owners", Quick: 60000, Thorough: 2000000,
+	kit.Run(t, kit.Config{Property: "C05", Unit: "owners", Quick: 100000, Thorough: 2000000,
 		Rule: "random owner specification (0-3 entries; object ref / controller ref / label selector each present or absent, partially filled; 5% of selector terms unparsable) x random pod (namespace, name, uid, labels, 0-2 owner references), ReservationInfo built by NewReservationInfo, by UpdateReservation over a different spec, or by NewReservationInfoFromPod (owners annotation); distinct = (shape of every entry, construction path, MatchOwners, matcher); non-trivial = specification with at least one non-empty entry"},
 		func(c *kit.Case) {
 			r := c.R
@@ -651,8 +651,8 @@ func c05CheckLedger(c *kit.Case, where string, ri *ReservationInfo, res *schedul
 }
 
 func TestVerifC05RInfoLedger(t *testing.T) {
-	kit.Run(t, kit.Config{Property: "C05", Unit: "rinfo-ledger", Quick: 3000, Thorough: 100000,
-		Rule: "histories of 20-80 add / repeated add / remove / remove-unknown / update-reservation (allocatable amounts, allocatable names, policy, restricted options, phase) operations on one ReservationInfo over 3-7 pods with boundary-biased requests; oracle after every step; distinct = (op, policy, #dims, #assigned, dims changed); non-trivial = a history in which a pod was removed after the reserved dimensions changed"},
+	kit.Run(t, kit.Config{Property: "C05", Unit: "rinfo-ledger", Quick: 6000, Thorough: 150000,
+		Rule: "histories of 20-80 add / repeated add / remove / remove-unknown / update-reservation (allocatable amounts, allocatable names, policy, restricted options, phase) operations on one ReservationInfo over 3-7 pods with boundary-biased requests; oracle after every step; distinct = (op, policy, #dims, #assigned, dims changed); non-trivial = a history in which an assigned pod was removed after the reservation object had been updated"},
 		func(c *kit.Case) {
 			r := c.R
 			res := c05GenReservation(r)
@@ -769,8 +769,8 @@ func TestVerifC05RInfoLedger(t *testing.T) {
 					ri.UpdateReservation(res)
 					c.Count("op_update", 1)
 					after, _ := c05Dims(res)
+					changed = true
 					if c05DimsStr(before) != c05DimsStr(after) {
-						changed = true
 						c.Count("op_update_dims_changed", 1)
 					}
 					for uid := range assigned {
